@@ -662,6 +662,20 @@ package iscp
 //@   assert[C03,C04] call Conn).send: aliasGenerator != nil && forall(a, uint32, imp(has(aliases, a), 1 <= a && a <= aliasGenerator.currentValue))
 //@   loop 2 invariant[C03,C04] aliases != nil && aliasGenerator != nil && aliasGenerator.currentValue <= rangeindex + 1 && forall(a, uint32, imp(has(aliases, a), 1 <= a && a <= aliasGenerator.currentValue))
 
+// Every attempt of the open request (Conn.send repeats the closure on the new wire connection when
+// the transport is lost in between) first subscribes the stream's chunk, ack-complete and metadata
+// channels on the connection that attempt uses: a stream opened by a retried request listens on the
+// connection it was opened on, not on the dead one.
+//@ func (*Conn).OpenDownstream$1
+//@   props C03 C05
+//@   ghostvar subChunks bool = false
+//@   ghostvar subAckComplete bool = false
+//@   ghostvar subMeta bool = false
+//@   after call SubscribeDownstreamChunk$: subChunks = (res1 == nil)
+//@   after call SubscribeDownstreamChunkAckComplete: subAckComplete = (res1 == nil)
+//@   after call subscribeDownstreamMetadata: subMeta = (res1 == nil)
+//@   assert call SendDownstreamOpenRequest: subChunks && subAckComplete && subMeta && arg2 != nil && arg2.DesiredStreamIDAlias == alias
+
 // ---------------------------------------------------------------- C05: recovery loops
 // The connection's run loop: when the session ends with an error it reconnects (never gives up by
 // itself), announces exactly one reconnected event per successful reconnect and runs again; it
